@@ -34,6 +34,10 @@ func c11One(ws *pipe.Workspace, fam string, idx int64, s *lexref.Spec, depth, L 
 	}
 	st.Evaluations++
 	st.Validated++
+	if b.ModeCountProblem != "" {
+		out = append(out, mc.Violation{Property: "C10", Check: "C11", Kind: "mode-tables-missing", Size: len(s.OneLine()),
+			Case: lexCaseJSON(fam, idx, s, nil, nil, L), Detail: "spec {" + s.OneLine() + "}: " + b.ModeCountProblem})
+	}
 	if only == nil {
 		gr := lx.ImplGraph(b, px.NB, depth)
 		st.States += int64(gr.States)
